@@ -47,22 +47,49 @@ def line(op: str, *args: str) -> str:
     return "\t".join([op, *[enc(a) for a in args]])
 
 
+MODEL_CRASH = "model-crash"   # marker for a line the executable model could not evaluate (skipped by Cases.run, counted)
+
+
+def _run_driver(lines: list[str], timeout: float):
+    data = ("\n".join(lines) + "\n").encode()
+    p = subprocess.run([DRV], input=data, stdout=subprocess.PIPE, stderr=subprocess.PIPE, timeout=timeout)
+    out = p.stdout.decode().split("\n")
+    if out and out[-1] == "":
+        out.pop()
+    return p.returncode, out, p.stderr.decode()[:500]
+
+
 def run_model(lines: list[str], timeout: float = 600.0) -> list[str]:
-    """Feed protocol lines to the Lean driver, return one output line per input line."""
+    """Feed protocol lines to the Lean driver, return one output line per input line.  If the driver dies on some input
+    (a runtime panic of the compiled model, e.g. an astronomically large power), the offending lines are isolated by
+    bisection and answered with MODEL_CRASH: a limitation of the model says nothing about the code, so such a line is
+    skipped and counted rather than reported as a disagreement."""
     if not lines:
         return []
     if not os.path.exists(DRV):
         raise RuntimeError(f"model driver missing: {DRV} (run setup)")
-    data = ("\n".join(lines) + "\n").encode()
-    p = subprocess.run([DRV], input=data, stdout=subprocess.PIPE, stderr=subprocess.PIPE, timeout=timeout)
-    if p.returncode != 0:
-        raise RuntimeError(f"model driver failed rc={p.returncode}: {p.stderr.decode()[:2000]}")
-    out = p.stdout.decode().split("\n")
-    if out and out[-1] == "":
-        out.pop()
-    if len(out) != len(lines):
-        raise RuntimeError(f"model driver returned {len(out)} lines for {len(lines)} inputs")
-    return out
+    rc, out, err = _run_driver(lines, timeout)
+    if rc == 0 and len(out) == len(lines):
+        return out
+    if len(lines) == 1:
+        return [MODEL_CRASH]
+    res: list[str] = []
+    budget = [40]   # at most this many single-line isolations
+
+    def solve(chunk):
+        rc_, out_, _ = _run_driver(chunk, timeout)
+        if rc_ == 0 and len(out_) == len(chunk):
+            return out_
+        if len(chunk) == 1:
+            budget[0] -= 1
+            return [MODEL_CRASH]
+        if budget[0] <= 0:
+            raise RuntimeError(f"model driver failed on too many inputs: {err}")
+        mid = len(chunk) // 2
+        return solve(chunk[:mid]) + solve(chunk[mid:])
+
+    res = solve(lines)
+    return res
 
 
 def err_name(e: BaseException) -> str:
